@@ -458,3 +458,49 @@ PROPS["C07"] = dict(
         H("c07_witness_must_fail", kind="witness", tier="thorough", timeout=600, unwindset=U07),
     ],
 )
+
+
+def c08(n, w, val, arr, obj):
+    """Per-harness bounds for the recursive-descent validator: loops linear in the input get n+2, the element
+    loops get the number of separators the window can hold, recursion is cut at the skeleton's (concrete)
+    depth -- the window cannot contain `[` or `{`, so deeper frames are unreachable and CBMC's unwinding
+    assertions prove that rather than assume it."""
+    lin = n + 2
+    us = {r"validate_string|skip_whitespace|skip_digits|position": lin, r"validate_unicode_escape": 6, r"validate_keyword": 7,
+          r"validate_utf8_char": 5, r"validate_(object|array)_inner": w + 3, r"line_col|recognise|c08_": lin + 1}
+    rec = {r"Validator14validate_value$": val}
+    if arr:
+        rec[r"Validator14validate_array$|Validator20validate_array_inner$"] = arr
+    if obj:
+        rec[r"Validator15validate_object$|Validator21validate_object_inner$"] = obj
+    return dict(unwindset=us, recursion=rec)
+
+
+PROPS["C08"] = dict(
+    module="c08",
+    bounds=("concrete nesting skeletons (top level, [w], [1,w], [[w]], {\"a\":w}, {w:1}, \"w\", \"\\\\uw\", -w, 1w, whitespace-wrapped) around a fully symbolic "
+            "window w of 2..=5 bytes that may hold any byte except '[' and '{'; accept <=> independent RFC 8259 push-down recogniser; on reject offset <= viable-prefix "
+            "length and (line, column) of that offset; nesting cap at 127/128/129 opens"),
+    outside="windows containing '[' or '{' (symbolic recursion depth); more than 5 symbolic bytes; skeletons not listed",
+    assumptions=["String::from_utf8_lossy (error-message construction) stubbed to an empty string",
+                 "recursion of the validator is cut at the skeleton depth; CBMC's recursion unwinding assertions show deeper frames unreachable",
+                 "container validators absent from a skeleton are replaced by a panicking stub, so their unreachability is an assertion"],
+    harnesses=[
+        H("c08_top_w3", timeout=1200, bounds="w=3 at top level", **c08(3, 3, 1, 0, 0)),
+        H("c08_top_w4", timeout=1800, bounds="w=4 at top level", **c08(4, 4, 1, 0, 0)),
+        H("c08_top_w5", timeout=2700, tier="thorough", bounds="w=5 at top level", **c08(5, 5, 1, 0, 0)),
+        H("c08_arr_w3", timeout=1800, bounds="[w], w=3", **c08(5, 3, 2, 1, 0)),
+        H("c08_arr_w4", timeout=2700, tier="thorough", bounds="[w], w=4", **c08(6, 4, 2, 1, 0)),
+        H("c08_arr_after_w3", timeout=1800, tier="thorough", bounds="[1,w], w=3", **c08(7, 3, 2, 1, 0)),
+        H("c08_arr2_w2", timeout=1800, tier="thorough", bounds="[[w]], w=2", **c08(6, 2, 3, 2, 0)),
+        H("c08_objval_w3", timeout=1800, bounds="{\"a\":w}, w=3", **c08(9, 3, 2, 0, 1)),
+        H("c08_objkey_w3", timeout=1800, tier="thorough", bounds="{w:1}, w=3", **c08(7, 3, 2, 0, 1)),
+        H("c08_str_w4", timeout=1800, bounds="\"w\", w=4", **c08(6, 4, 1, 0, 0)),
+        H("c08_str_w5", timeout=2700, tier="thorough", bounds="\"w\", w=5", **c08(7, 5, 1, 0, 0)),
+        H("c08_uesc_w4", timeout=1800, tier="thorough", bounds="\"\\\\uw\", w=4", **c08(8, 4, 1, 0, 0)),
+        H("c08_minus_w3", timeout=1200, bounds="-w, w=3", **c08(4, 3, 1, 0, 0)),
+        H("c08_digit_w4", timeout=1800, tier="thorough", bounds="1w, w=4", **c08(5, 4, 1, 0, 0)),
+        H("c08_ws_w3", timeout=1800, tier="thorough", bounds="whitespace / CR LF around w=3", **c08(8, 3, 1, 0, 0)),
+        H("c08_witness_must_fail", kind="witness", tier="thorough", timeout=900, **c08(2, 2, 1, 0, 0)),
+    ],
+)
